@@ -31,6 +31,23 @@ const U128MAX: u128 = u128::MAX;
 const DENOMS: [&str; 3] = ["ua", "ub", "uc"];
 const VALIDATORS: [&str; 2] = ["val1", "val2"];
 
+/// `M.m.p[-pre]` re-rendered from its parts, `?` for anything else (mirrors `parseSemVer` of the Lean driver).
+fn canon_semver(s: &str) -> String {
+    let (main, pre) = match s.split_once('-') {
+        Some((m, p)) => (m, Some(p)),
+        None => (s, None),
+    };
+    let parts: Vec<&str> = main.split('.').collect();
+    if parts.len() != 3 {
+        return "?".to_string();
+    }
+    let nums: Vec<Option<u64>> = parts.iter().map(|p| if p.chars().all(|c| c.is_ascii_digit()) { p.parse().ok() } else { None }).collect();
+    match (nums[0], nums[1], nums[2]) {
+        (Some(a), Some(b), Some(c)) => format!("{a}.{b}.{c}{}", pre.map(|p| format!("-{p}")).unwrap_or_default()),
+        _ => "?".to_string(),
+    }
+}
+
 fn new_deps() -> Deps {
     OwnedDeps {
         storage: MemStore::default(),
@@ -217,6 +234,8 @@ pub struct Cw1Scen {
     wide: bool,
     /// generator (wide): 0 = allowance-heavy trace, 1 = permission-heavy trace
     mode: u64,
+    /// generator: the trace started from an `inst_legacy` state that was not migrated yet
+    legacy: bool,
 }
 
 pub struct WlScen;
@@ -240,7 +259,7 @@ impl SkScen {
 
 impl Cw1Scen {
     fn make(sub: bool) -> Self {
-        Cw1Scen { sub, deps: new_deps(), env: mock_env(), pool: vec![], inited: false, seed: 0, wide: false, mode: 0 }
+        Cw1Scen { sub, deps: new_deps(), env: mock_env(), pool: vec![], inited: false, seed: 0, wide: false, mode: 0, legacy: false }
     }
 
     fn name(&self) -> &'static str {
@@ -391,8 +410,13 @@ impl Cw1Scen {
         if let Some(d) = paging_audit("all_permissions", &|c, l| self.q_all_permissions(c, l)) {
             pagediff.push(d);
         }
+        // the cw2 item, canonical: `name/M.m.p[-pre]`, `?` for a version that is not `M.m.p[-pre]`, `-` if absent
+        let cw2 = match cw2::get_contract_version(&self.deps.storage) {
+            Ok(v) => format!("{}/{}", v.contract, canon_semver(&v.version)),
+            Err(_) => "-".to_string(),
+        };
         format!(
-            "obs pagediff={} admins={} mutable={} allow={} lallow={} rallow={} perm={} lperm={}",
+            "obs pagediff={} admins={} mutable={} allow={} lallow={} rallow={} perm={} lperm={} cw2={}",
             pagediff.join(","),
             admins,
             mutable,
@@ -400,7 +424,8 @@ impl Cw1Scen {
             lallow.join(","),
             rallow.join(","),
             perm.join(","),
-            lperm.join(",")
+            lperm.join(","),
+            cw2
         )
     }
 
@@ -754,6 +779,7 @@ impl Scenario for Cw1Scen {
         self.env = mock_env();
         self.pool = a.list("pool").into_iter().map(Addr::unchecked).collect();
         self.inited = false;
+        self.legacy = false;
         self.seed = a.u64("seed");
     }
 
@@ -775,7 +801,19 @@ impl Scenario for Cw1Scen {
             if admins.is_empty() && rng.chance(3, 4) {
                 admins = format!("+{}", self.pool[0]);
             }
+            if self.sub && rng.chance(1, 6) {
+                // cw2 item as an older / newer / foreign / broken code version left it (`ver=-`: absent)
+                let ver = *rng.pick(&[
+                    "0.13.4", "1.9.9", "2.0.0", "2.0.0-beta", "2.0.0-alpha", "2.0.1", "3.0.0-rc1", "10.0.0", "1.99.99", "garbage", "1.2", "-",
+                ]);
+                let name = if rng.chance(1, 4) { "crates.io:cw1-whitelist" } else { "crates.io:cw1-subkeys" };
+                return format!("inst_legacy admins={} mutable={} name={} ver={}", admins, rng.chance(4, 5), name, ver);
+            }
             return format!("inst admins={} mutable={}", admins, rng.chance(4, 5));
+        }
+        if self.sub && (rng.chance(1, 40) || (self.legacy && rng.chance(1, 6))) {
+            self.legacy = false;
+            return "migrate".to_string();
         }
         let r = rng.below(100);
         if r < 8 {
@@ -900,7 +938,21 @@ impl Scenario for Cw1Scen {
                 self.env.block.time = Timestamp::from_nanos(a.u64("time"));
                 vec![]
             }
-            "inst" => {
+            "migrate" if self.sub => {
+                let snap = self.deps.storage.clone();
+                let env = self.env.clone();
+                let deps = &mut self.deps;
+                let r = catch(move || cw1_subkeys::contract::migrate(deps.as_mut(), env, cosmwasm_std::Empty {}).map_err(|e| e.to_string()));
+                let out = match r {
+                    Some(Ok(res)) => format!("> ok msgs={}", render_response_msgs(&res)),
+                    _ => {
+                        self.deps.storage = snap;
+                        "> err".to_string()
+                    }
+                };
+                vec![out, self.observe(op)]
+            }
+            "inst" | "inst_legacy" => {
                 let msg = InstantiateMsg {
                     admins: a.list("admins").iter().map(|s| addr_text(s)).collect(),
                     mutable: a.str("mutable") == "true",
@@ -920,6 +972,14 @@ impl Scenario for Cw1Scen {
                 let out = match r {
                     Some(Ok(_)) => {
                         self.inited = true;
+                        if kind == "inst_legacy" {
+                            // what an older (or foreign) code version left in the cw2 item
+                            match a.opt("ver") {
+                                Some(v) => cw2::set_contract_version(&mut self.deps.storage, a.str("name"), v).unwrap(),
+                                None => cosmwasm_std::Storage::remove(&mut self.deps.storage, b"contract_info"),
+                            }
+                            self.legacy = true;
+                        }
                         "> ok".to_string()
                     }
                     _ => {
